@@ -12,7 +12,7 @@ REQUIRED_THEOREMS = ['Props.C17.each_fn_once', 'Props.C17.trace_linear', 'Props.
 RULE = ('chains of depth 10..2000 (quick) / 5000 (thorough) and wide fan-out graphs over add/mul/neg/clone, run through the '
         'model and the implementation with the full engine trace compared (each recorded op called exactly once, in a topological '
         'order); programs whose ops run under no_grad or on operands that do not require grad (results must hold no children and '
-        'no grad_fn). Runtime residue observed on the implementation only: a chain of 50 000 ops back-propagates (no recursion '
+        'no grad_fn), also as the very first statements of a fresh interpreter (first tensor created inside a pre-entered context). Runtime residue observed on the implementation only: a chain of 50 000 ops back-propagates (no recursion '
         'limit) with one call per op and linear time; operands of untracked results are freed (weakref) in a loop of 100 000 '
         'untracked updates. Non-trivial: depth >= 200 or fan-out >= 50 or an untracked op.')
 EXHAUSTIVE = {'quick': False, 'thorough': False}
@@ -82,8 +82,25 @@ def untracked(rng):
     return {'kind': 'untracked', 'lines': lines}
 
 
+def fresh(rng):
+    """run in a fresh interpreter: the FIRST tensors of the process are created inside a pre-entered context (an inference script
+    that starts with `with no_grad():`); untracked results must hold no history there either, and the modes must be what the
+    contexts say"""
+    kind = rng.pick(['ng', 'ng', 'rg'])
+    lines = [f't ctx new {kind}', 't ctx enter 0', 't modes', gen_dag.leaf_line((2,), [1.0, 3.0], True), 't modes', gen_dag.leaf_line((2,), [2.0, 1.0], False), 't flags 0']
+    nt = 2
+    for _ in range(rng.randint(2, 6)):
+        a = rng.randrange(nt); b = rng.randrange(nt)
+        lines.append(rng.pick([f't op add {a},{b}', f't op mul {a},{b}', f't op neg {a}', f't op sum {a} all 0']))
+        lines.append(f't flags {nt}'); nt += 1
+    lines += ['t modes', 't ctx exit 0', 't modes', 't op mul 0,1', f't flags {nt}']
+    return {'kind': 'fresh', 'lines': lines}
+
+
 def cases(rng, tier):
     out = []
+    for _ in range(3 if tier == 'quick' else 12):
+        out.append(fresh(rng))
     depths = [10, 50, 200, 1000, 2000] if tier == 'quick' else [10, 50, 200, 1000, 2000, 3000, 5000]
     for d in depths:
         out.append(chain(rng, d))
@@ -101,7 +118,11 @@ def cases(rng, tier):
 
 
 def impl(c):
-    return tprog.run_program(c['lines'])
+    return _io(c)
+
+
+def _io(c):
+    return tprog.run_program_fresh(c['lines']) if c['kind'] == 'fresh' else tprog.run_program(c['lines'])
 
 
 def compare(c, mo, io):
@@ -113,7 +134,7 @@ def compare(c, mo, io):
 
 
 def nontrivial(c):
-    return c.get('depth', 0) >= 200 or c.get('width', 0) >= 50 or c['kind'] == 'untracked'
+    return c.get('depth', 0) >= 200 or c.get('width', 0) >= 50 or c['kind'] in ('untracked', 'fresh')
 
 
 def distribution(cases):
@@ -181,7 +202,7 @@ def oracle(c):
     if c['kind'] == 'runtime':
         f = runtime_residue()
         return dict(f, case={'kind': 'runtime'}) if f else None
-    io = tprog.run_program(c['lines'])
+    io = _io(c)
     for li, (l, o) in enumerate(zip(c['lines'], io)):
         if l.startswith('t bw'):
             if o == 'rejected':
@@ -192,10 +213,10 @@ def oracle(c):
                 return {'key': {'cls': 'called-twice', 'kind': c['kind']}, 'case': c, 'what': 'an operation was called more than once'}
             if c['kind'] == 'chain' and len(calls) != nops:
                 return {'key': {'cls': 'calls', 'kind': c['kind']}, 'case': c, 'what': f'{len(calls)} calls for {nops} recorded ops'}
-        if c['kind'] == 'untracked' and l.startswith('t flags'):
+        if c['kind'] in ('untracked', 'fresh') and l.startswith('t flags') and ' ' in o:
             f = dict(kv.split('=') for kv in o.split(' '))
             if f['rg'] == '0' and (f['children'] != '0' or f['fn'] != '0'):
-                return {'key': {'cls': 'history'}, 'case': {'kind': 'untracked', 'lines': c['lines'][:li + 1]}, 'what': f'an untracked result keeps {o}'}
+                return {'key': {'cls': 'history'}, 'case': {'kind': c['kind'], 'lines': c['lines'][:li + 1]}, 'what': f'an untracked result keeps {o}'}
     return None
 
 
